@@ -164,33 +164,61 @@ fn gen_msg(g: &mut G) -> Message<SId> {
     }
 }
 
+use bincode::config::{BigEndian, Configuration, Fixint, LittleEndian, NoLimit, Varint};
+
+/// the codecs that have a wire model, numbered as in the driver protocol (SerdeM.v, fmt_of)
 enum AnyCodec {
-    B(BincodeCodec<bincode::config::Configuration>),
+    B(BincodeCodec<Configuration>),
     P(PostcardCodec),
+    BBe(BincodeCodec<Configuration<BigEndian, Varint, NoLimit>>),
+    BFixLe(BincodeCodec<Configuration<LittleEndian, Fixint, NoLimit>>),
+    BFixBe(BincodeCodec<Configuration<BigEndian, Fixint, NoLimit>>),
 }
+const CODEC_NAMES: [&str; 5] = ["bincode", "postcard", "bincode(big-endian)", "bincode(fixed-int / legacy)", "bincode(big-endian fixed-int)"];
 impl AnyCodec {
+    fn of(ci: u128) -> AnyCodec {
+        match ci {
+            0 => AnyCodec::B(BincodeCodec(bincode::config::standard())),
+            1 => AnyCodec::P(PostcardCodec),
+            2 => AnyCodec::BBe(BincodeCodec(bincode::config::standard().with_big_endian())),
+            3 => AnyCodec::BFixLe(BincodeCodec(bincode::config::legacy())),
+            _ => AnyCodec::BFixBe(BincodeCodec(bincode::config::standard().with_big_endian().with_fixed_int_encoding())),
+        }
+    }
     fn enc_hdr(&mut self, h: &Header<SId>, buf: impl BufMut) -> bool {
         match self {
             AnyCodec::B(c) => c.encode_header(h, buf).is_ok(),
             AnyCodec::P(c) => c.encode_header(h, buf).is_ok(),
+            AnyCodec::BBe(c) => c.encode_header(h, buf).is_ok(),
+            AnyCodec::BFixLe(c) => c.encode_header(h, buf).is_ok(),
+            AnyCodec::BFixBe(c) => c.encode_header(h, buf).is_ok(),
         }
     }
     fn enc_mem(&mut self, m: &Member<SId>, buf: impl BufMut) -> bool {
         match self {
             AnyCodec::B(c) => c.encode_member(m, buf).is_ok(),
             AnyCodec::P(c) => c.encode_member(m, buf).is_ok(),
+            AnyCodec::BBe(c) => c.encode_member(m, buf).is_ok(),
+            AnyCodec::BFixLe(c) => c.encode_member(m, buf).is_ok(),
+            AnyCodec::BFixBe(c) => c.encode_member(m, buf).is_ok(),
         }
     }
     fn dec_hdr(&mut self, b: &mut &[u8]) -> Option<Header<SId>> {
         match self {
             AnyCodec::B(c) => c.decode_header(b).ok(),
             AnyCodec::P(c) => c.decode_header(b).ok(),
+            AnyCodec::BBe(c) => c.decode_header(b).ok(),
+            AnyCodec::BFixLe(c) => c.decode_header(b).ok(),
+            AnyCodec::BFixBe(c) => c.decode_header(b).ok(),
         }
     }
     fn dec_mem(&mut self, b: &mut &[u8]) -> Option<Member<SId>> {
         match self {
             AnyCodec::B(c) => c.decode_member(b).ok(),
             AnyCodec::P(c) => c.decode_member(b).ok(),
+            AnyCodec::BBe(c) => c.decode_member(b).ok(),
+            AnyCodec::BFixLe(c) => c.decode_member(b).ok(),
+            AnyCodec::BFixBe(c) => c.decode_member(b).ok(),
         }
     }
 }
@@ -411,19 +439,19 @@ where
 
 pub fn c20(seed: u64, budget: u64) -> FOut {
     let mut out = FOut::default();
-    out.rule = "for BincodeCodec(standard()) and PostcardCodec over Header<SId>/Member<SId> (SId = {u8,u16,u32,u64}): random values with boundary integers (0,1,127,128,250,251,255,2^16-1,2^16,MAX-1,MAX) in every field and every Message variant; (i) encoding into an unbounded buffer must equal the Coq model's bytes; (ii) decoding those bytes followed by random trailing data must return the value and consume exactly the encoding; (iii) encoding into a Limit buffer of EVERY size 0..len: Ok iff the size suffices, never more bytes than the limit, bytes written as the model predicts; (iv) every truncation of the encoding, random byte strings and mutated encodings: the real decoder and the model must agree on error / value / bytes consumed; (v) a real Foca<SId, bundled codec> holding 2..25 members answers an Announce and gossips under 76 packet sizes from 'header barely fits' upwards: every datagram is within the limit and is header + count + exactly count decodable members + nothing else (nothing a failing encode_member wrote is left behind), Feed lists only known members other than the receiver; (vi) BincodeCodec with the configurations big-endian, fixed-int, legacy and big-endian fixed-int (no wire model): round trip with trailing data (equal value, exactly the bytes produced), every buffer size (Ok iff it suffices, nothing past the limit), truncations and mutations (no panic); everything under catch_unwind (a panic is a hit). distinct = distinct (codec, kind, encoded length) triples".into();
+    out.rule = "for BincodeCodec(standard()), PostcardCodec and BincodeCodec with the configurations big-endian, legacy (fixed-int) and big-endian fixed-int over Header<SId>/Member<SId> (SId = {u8,u16,u32,u64}): random values with boundary integers (0,1,127,128,250,251,255,2^16-1,2^16,MAX-1,MAX) in every field and every Message variant; (i) encoding into an unbounded buffer must equal the Coq model's bytes; (ii) decoding those bytes followed by random trailing data must return the value and consume exactly the encoding; (iii) encoding into a Limit buffer of EVERY size 0..len: Ok iff the size suffices, never more bytes than the limit, bytes written as the model predicts; (iv) every truncation of the encoding, random byte strings and mutated encodings: the real decoder and the model must agree on error / value / bytes consumed; (v) a real Foca<SId, bundled codec> holding 2..25 members answers an Announce and gossips under 76 packet sizes from 'header barely fits' upwards: every datagram is within the limit and is header + count + exactly count decodable members + nothing else (nothing a failing encode_member wrote is left behind), Feed lists only known members other than the receiver; (vi) BincodeCodec with the configurations big-endian, fixed-int, legacy and big-endian fixed-int (no wire model): round trip with trailing data (equal value, exactly the bytes produced), every buffer size (Ok iff it suffices, nothing past the limit), truncations and mutations (no panic); everything under catch_unwind (a panic is a hit). distinct = distinct (codec, kind, encoded length) triples".into();
     let mut g = G::new(seed ^ 0xC20);
     let mut drv = Drv::new();
     let mut cases = 0u64;
     for _run in 0..budget {
-        for ci in 0..2u128 {
-            let mut codec = if ci == 0 { AnyCodec::B(BincodeCodec(bincode::config::standard())) } else { AnyCodec::P(PostcardCodec) };
+        for ci in 0..5u128 {
+            let mut codec = AnyCodec::of(ci);
             for what in 0..2u128 {
                 // value
                 let hdr = Header { src: gen_sid(&mut g), src_incarnation: gen_u(&mut g, 16) as u16, dst: gen_sid(&mut g), message: gen_msg(&mut g) };
                 let mem = Member::new(gen_sid(&mut g), gen_u(&mut g, 16) as u16, match g.below(3) { 0 => State::Alive, 1 => State::Suspect, _ => State::Down });
                 let vnums = if what == 0 { hdr_nums(&hdr) } else { mem_nums(&mem) };
-                let ctx = format!("codec={} {}", if ci == 0 { "bincode" } else { "postcard" }, if what == 0 { format!("{hdr:?}") } else { format!("{mem:?}") });
+                let ctx = format!("codec={} {}", CODEC_NAMES[ci as usize], if what == 0 { format!("{hdr:?}") } else { format!("{mem:?}") });
                 // (i) full encode
                 let mut full: Vec<u8> = vec![];
                 let r = catch_unwind(AssertUnwindSafe(|| if what == 0 { codec.enc_hdr(&hdr, &mut full) } else { codec.enc_mem(&mem, &mut full) }));
